@@ -12,6 +12,8 @@
                             | err <kind> <alloc>    kind  = buftoosmall | overflow | verifymarshal
                             | panic <why> <alloc>   why   = slicebounds | makeslicelen | fuel
                             | alloc <n> <alloc>
+     V <hex>        file_read of a state file holding the bytes only (what store.Read answers):
+                      <outcome>   (alloc printed as 0x0)
      E <entries>    encode, entries in the given order: <hex>
      M <entries>    to_map: ok 0x0 <entries>
      N              file model: fresh empty state file; answers "-"
@@ -188,6 +190,7 @@ let () =
             print_outcome buf (mc_benc_decode_i b);
             Buffer.add_string buf " | ";
             print_outcome buf (mc_file_read (mc_fs_of b), N0)
+          | ["V"; h] -> print_outcome buf (mc_file_read (mc_fs_of (bytes_of_hex h)), N0)
           | "E" :: toks ->
             let (es, _) = parse_entries toks in
             Buffer.add_string buf (hex_of_bytes (mc_encode es))
@@ -208,7 +211,7 @@ let () =
         | Stack_overflow -> Buffer.clear buf; Buffer.add_string buf "bad stack-overflow"
         | Failure m -> Buffer.clear buf; Buffer.add_string buf ("bad " ^ m)
         | Not_found -> Buffer.clear buf; Buffer.add_string buf "bad not-found");
-       print_string (Buffer.contents buf); print_char '\n'
+       print_string (Buffer.contents buf); print_char '\n'; flush stdout
      done
    with End_of_file -> ());
   flush stdout
